@@ -59,7 +59,7 @@ structure RunSt (R : Type) where
 
 section run
 variable {R : Type} [Add R] [Sub R] [Mul R] [Neg R] [Zero R] [One R] [Div R] [Consts R]
-  [LE R] [DecidableLE R] [HasSqrt R] [RegConsts R]
+  [LE R] [DecidableLE R] [LT R] [DecidableLT R] [HasSqrt R] [RegConsts R]
 
 /-- one event: the body of `stepBlock` in `Sym.finish`, cut at the operator application -/
 def Ev.run (st : RunSt R) : Ev R → Option (RunSt R)
@@ -376,7 +376,7 @@ theorem events_branch_nop (e : ExtOp R) : (e.branch .nop).events ≃ₑ e.events
     simp only [events, ht']
     exact EvEquiv.refl _
 
-omit [Add R] [Sub R] [Mul R] [Neg R] [Zero R] [One R] [Div R] [Consts R] [LE R] [DecidableLE R]
+omit [Add R] [Sub R] [Mul R] [Neg R] [Zero R] [One R] [Div R] [Consts R] [LE R] [DecidableLE R] [LT R] [DecidableLT R]
   [HasSqrt R] [RegConsts R] in
 theorem branch_nop_tail (e : ExtOp R) : (e.branch .nop).tail = [] := by
   unfold ExtOp.branch; split <;> rfl
@@ -1379,7 +1379,7 @@ end chunks
 
 section both
 variable {R : Type} [Add R] [Sub R] [Mul R] [Neg R] [Zero R] [One R] [Div R] [Consts R]
-  [LE R] [DecidableLE R] [HasSqrt R] [RegConsts R] [ExprFns R] [AngleFns R]
+  [LE R] [DecidableLE R] [LT R] [DecidableLT R] [HasSqrt R] [RegConsts R] [ExprFns R] [AngleFns R]
 
 /-- `process_if`: the guarded operator becomes a conditional block of its own, after
 everything queued so far -/
@@ -1667,7 +1667,7 @@ end both
 
 section exec
 variable {R : Type} [Add R] [Sub R] [Mul R] [Neg R] [Zero R] [One R] [Div R] [Consts R]
-  [LE R] [DecidableLE R] [HasSqrt R] [RegConsts R]
+  [LE R] [DecidableLE R] [LT R] [DecidableLT R] [HasSqrt R] [RegConsts R]
 
 /-- what a finished run leaves: the quantum state, the classical register, the unused
 outcomes -/
@@ -1718,12 +1718,19 @@ theorem QReg.normalize_shape (r : QReg R) : QShape r r.normalize := by
     · exact QShape.rfl' r
     · exact ⟨by simp, rfl, rfl⟩
 
+theorem QReg.rescale_shape (r : QReg R) : QShape r r.rescale := by
+  unfold QReg.rescale
+  dsimp only []
+  split
+  · exact ⟨by simp, rfl, rfl⟩
+  · exact QShape.rfl' r
+
 theorem QReg.measureMask_shape (r : QReg R) (m d : Nat) : QShape r (r.measureMask m d).1 := by
   unfold QReg.measureMask
   dsimp only []
   split
   · exact QShape.rfl' r
-  · exact QShape.trans' (QReg.collapseMask_shape r _ _) (QReg.normalize_shape _)
+  · exact QShape.trans' (QReg.collapseMask_shape r _ _) (QReg.rescale_shape _)
 
 theorem QReg.resetByMask_shape (r : QReg R) (m d : Nat) : QShape r (r.resetByMask m d) := by
   unfold QReg.resetByMask
